@@ -242,7 +242,8 @@ def run(ck, P):
     ok = bool(reh) and bool(finds)
     if ok:
         first_find = finds[0]
-        load = [e for e in reh if has(X.facts(hp, e), "(m->table_size > (m->length + (m->length / 3)))", False)]
+        # the growth that happens under a comparison of the table size with the length (however the comparison is written)
+        load = [e for e in reh if any("->table_size" in a_ and "->length" in a_ for (a_, _p) in (X.facts(hp, e) or ()))]
         ok = bool(load) and all(hp.ev_dominates(e, first_find) or e.block.id in hp.dominators()[first_find.block.id] or
                                 _precedes(hp, e, first_find) for e in load)
     ck.ob("C05.5-GROW-PROBE", hp.site("rehash<find"), ok, "load-factor rehash precedes the slot search: %s" % ok)
